@@ -108,8 +108,8 @@ Theorem calls_grow_only_by_call_proof : forall lookup d,
     dealer_wf lookup d ->
     (forall lk caller req opts c x,
         cget (d_calls (fst (cancel lk d caller req opts))) c = Some x -> cget (d_calls d) c = Some x) /\
-    (forall callee req opts args kw c x,
-        cget (d_calls (fst (sync_yield d callee req opts args kw))) c = Some x -> cget (d_calls d) c = Some x) /\
+    (forall lk callee req opts args kw c x,
+        cget (d_calls (fst (sync_yield lk d callee req opts args kw))) c = Some x -> cget (d_calls d) c = Some x) /\
     (forall callee req det err args kw c x,
         cget (d_calls (fst (sync_error d callee req det err args kw))) c = Some x -> cget (d_calls d) c = Some x) /\
     (forall lk now c x,
@@ -129,7 +129,7 @@ Proof.
   intros lookup d WF. pose proof (wf_calls _ _ WF) as W.
   split; [|split; [|split; [|split; [|split; [|split; [|split]]]]]].
   - intros lk caller req opts. destruct (cancel_core lk d caller req opts W) as [_ S]. apply (cs_sub_calls _ _ S).
-  - intros callee req opts args kw. destruct (sync_yield_core d callee req opts args kw W) as [_ S]. apply (cs_sub_calls _ _ S).
+  - intros lk callee req opts args kw. destruct (sync_yield_core lk d callee req opts args kw W) as [_ S]. apply (cs_sub_calls _ _ S).
   - intros callee req det err args kw. destruct (sync_error_core d callee req det err args kw W) as [_ S]. apply (cs_sub_calls _ _ S).
   - intros lk now. destruct (fire_timers_core lk now d W) as [_ S]. apply (cs_sub_calls _ _ S).
   - intros lk sid. apply (drs_calls_sub lookup lookup lk d sid WF (fun _ _ => eq_refl)).
@@ -271,8 +271,8 @@ Definition call_state (r : call_result) (d : dealer) : dealer :=
 Inductive dealer_fn_step : dstep -> Prop :=
 | DS_cancel lookup lk d caller req opts : dealer_wf lookup d ->
     dealer_fn_step (d, None, snd (cancel lk d caller req opts), fst (cancel lk d caller req opts))
-| DS_yield lookup d callee req opts args kw : dealer_wf lookup d ->
-    dealer_fn_step (d, None, snd (sync_yield d callee req opts args kw), fst (sync_yield d callee req opts args kw))
+| DS_yield lookup lk d callee req opts args kw : dealer_wf lookup d ->
+    dealer_fn_step (d, None, snd (sync_yield lk d callee req opts args kw), fst (sync_yield lk d callee req opts args kw))
 | DS_error lookup d callee req det err args kw : dealer_wf lookup d ->
     dealer_fn_step (d, None, snd (sync_error d callee req det err args kw), fst (sync_error d callee req det err args kw))
 | DS_fire lookup lk now d : dealer_wf lookup d ->
@@ -296,7 +296,7 @@ Qed.
 
 Theorem dealer_fn_step_ok : forall t, dealer_fn_step t -> dstep_ok t.
 Proof.
-  intros t H. destruct H as [lookup lk d caller req opts WF|lookup d callee req opts args kw WF
+  intros t H. destruct H as [lookup lk d caller req opts WF|lookup lk' d callee req opts args kw WF
                             |lookup d callee req det err args kw WF|lookup lk now d WF|lookup lk d sid WF
                             |lookup cfg d callee req opts proc WF|lookup d sid req regid WF
                             |cfg lookup now d caller req opts proc args kw oracle WF];
@@ -317,11 +317,16 @@ Proof.
     destruct (_ || _ || _); [apply Hsc|]. destruct (String.eqb _ ""); [apply Hsc|].
     cbn [snd]. apply once_nofinal. intros m cid [<-|[]]. discriminate.
   - apply dstep_ok_of_owned; [| apply G2 |].
-    + intros m Hm cid fin R. destruct (yield_replies lookup d callee req opts args kw m WF Hm cid fin R)
+    + intros m Hm cid fin R. destruct (yield_replies lookup lk' d callee req opts args kw m WF Hm cid fin R)
         as (Hc & inv & _ & _ & _ & Hf). auto.
-    + apply once_short. destruct (cget (d_invs d) (callee, req)) as [inv|] eqn:Hi.
-      * rewrite (sync_yield_owner _ _ _ _ _ _ _ Hi). cbn [snd]. destruct (cget (d_calls d) (inv_call inv)); cbn; lia.
-      * rewrite sync_yield_unknown by exact Hi. cbn [snd]. destruct (opt_bool opts "progress"); cbn; lia.
+    + pose proof (answer_routing_yield_proof lookup lk' d callee req opts args kw WF) as AR.
+      destruct (cget (d_invs d) (callee, req)) as [inv|] eqn:Hi.
+      * cbv zeta in AR. destruct AR as (_ & _ & _ & _ & One).
+        intros o1 m o2 cid E F m' Hin [fin R].
+        assert (reply_of m' = None) by (eapply One; [exact E | congruence | apply in_or_app; right; exact Hin]).
+        congruence.
+      * rewrite AR. cbn [snd]. apply once_nofinal. intros m cid Hm R.
+        destruct (opt_bool opts "progress"); [destruct Hm as [<-|[]]; discriminate R | destruct Hm].
   - apply dstep_ok_of_owned; [intros m Hm; eapply error_replies; eauto | apply G3 |].
     apply once_short. destruct (cget (d_invs d) (callee, req)) as [inv|] eqn:Hi.
     + rewrite (sync_error_owner _ _ _ _ _ _ _ _ Hi). destruct (cget (d_calls d) (inv_call inv)); cbn; lia.
@@ -383,7 +388,7 @@ Definition ex_is_call (b : bool) (cid : callid) : Prop := b = true /\ cid = (10,
 Definition e1 : dealer * list out := sync_error d3 11 1 [] "com.err" [] [].
 Definition ex_call2 : call_result := call cfg0 (lk 1 0) 9 (fst e1) s10 7 [] "com.x" [] [] 0.
 Definition e2 : dealer := match ex_call2 with CallInvoked d _ _ => d | _ => fst e1 end.
-Definition e3 : dealer * list out := sync_yield e2 12 1 [] [vnat 5] [].
+Definition e3 : dealer * list out := sync_yield (lk 1 1) e2 12 1 [] [vnat 5] [].
 
 Definition ex_t1 : tstep dealer bool := (d3, false, snd e1, fst e1).
 Definition ex_t2 : tstep dealer bool := (fst e1, true, call_out ex_call2, e2).
@@ -443,7 +448,7 @@ Definition hx2 : dstep :=
   (hd1, Some (s_id s10, 7), call_out (call cfg0 (lk 1 0) 9 hd1 s10 7 [] "com.x" [] [] 0),
    call_state (call cfg0 (lk 1 0) 9 hd1 s10 7 [] "com.x" [] [] 0) hd1).
 Definition hx3 : dstep :=
-  (hd2, None, snd (sync_yield hd2 12 1 [] [vnat 5] []), fst (sync_yield hd2 12 1 [] [vnat 5] [])).
+  (hd2, None, snd (sync_yield (lk 1 1) hd2 12 1 [] [vnat 5] []), fst (sync_yield (lk 1 1) hd2 12 1 [] [vnat 5] [])).
 
 Example dealer_reply_unique_ex :
     chained dealer (option callid) d3 ([] ++ hx1 :: [hx2] ++ hx3 :: []) /\
@@ -456,7 +461,7 @@ Proof.
   assert (E2 : exists d' o, hcall = CallInvoked d' (set_invgen s12 1) o) by (eexists; eexists; vm_compute; reflexivity).
   assert (O1 : snd (sync_error d3 11 1 [] "com.err" [] []) = [(10, RError c_CALL 7 [] "com.err" [] [])])
     by (vm_compute; reflexivity).
-  assert (O3 : snd (sync_yield hd2 12 1 [] [vnat 5] []) = [(10, RResult 7 [] [vnat 5] [])])
+  assert (O3 : snd (sync_yield (lk 1 1) hd2 12 1 [] [vnat 5] []) = [(10, RResult 7 [] [vnat 5] [])])
     by (vm_compute; reflexivity).
   assert (W2 : dealer_wf (lk 1 1) hd2).
   { pose proof (call_wf cfg0 (lk 1 0) 9 hd1 s10 7 [] "com.x" [] [] 0 W1 (lk_ok 1 0)) as H.
